@@ -123,6 +123,16 @@ Section C15.
     exact (scan_failure_is_explicit env_ser env_de max default coll env_round_trip env_bytes o lim
              coll_sorted lim_nonzero cfg_default cfg_max).
   Qed.
+
+  (* the threaded evaluation of the scan used for very long scans in the
+     correspondence runs is the scan itself *)
+  Theorem C15_fast_scan_is_scan : forall fuel,
+    full_scan env_ser env_de max default coll fuel o lim =
+    fast_scan env_ser max default coll fuel o lim.
+  Proof.
+    exact (fast_scan_is_scan env_ser env_de max default coll env_round_trip env_bytes o lim
+             coll_sorted lim_nonzero cfg_default cfg_max).
+  Qed.
 End C15.
 
 (* ResultsPage::new by itself, for any item list (no contract on the handler):
@@ -202,5 +212,6 @@ Print Assumptions C15_token_iff_nonempty.
 Print Assumptions C15_scan_request_count.
 Print Assumptions C15_scan_done_is_complete.
 Print Assumptions C15_scan_failure_is_explicit.
+Print Assumptions C15_fast_scan_is_scan.
 Print Assumptions C15_results_page_token_iff.
 Print Assumptions C15_tokens_fit_sufficient.
